@@ -108,11 +108,13 @@ def forbidden_scan():
 
 
 def audit_theorems(prop, theorems):
-    """Print Assumptions of each pinned theorem, in one coqc run. Returns dict name -> text."""
+    """Print Assumptions of each pinned theorem (qualified Module.name), in one coqc run."""
     ensure_dirs()
     path = os.path.join(WORK, "audit_%s.v" % prop)
+    mods = sorted(set(t.split(".")[0] for t in theorems))
     with open(path, "w") as f:
-        f.write("From FP Require Import Properties.%s.\n" % prop)
+        for m in mods:
+            f.write("From FP Require Properties.%s.\n" % m)
         for t in theorems:
             f.write('Goal True. idtac "@@%s". Abort.\nPrint Assumptions %s.\n' % (t, t))
     try:
@@ -138,8 +140,11 @@ def audit_theorems(prop, theorems):
 def coqchk(prop, timeout=1800):
     """independent re-check of the property's compiled closure; returns (ok, axioms text)"""
     try:
-        rc, out, err = sh(["coqchk", "-o", "-silent", "-Q", ".", "FP", "FP.Properties.%s" % prop, "FP.Properties.Pin%s" % prop],
-                          cwd=COQ, timeout=timeout)
+        mods = prop if isinstance(prop, (list, tuple)) else [prop]
+        args = []
+        for m in mods:
+            args += ["FP.Properties.%s" % m, "FP.Properties.Pin%s" % m]
+        rc, out, err = sh(["coqchk", "-o", "-silent", "-Q", ".", "FP"] + args, cwd=COQ, timeout=timeout)
     except subprocess.TimeoutExpired:
         return False, "coqchk timed out"
     txt = out + err
@@ -156,10 +161,12 @@ def hx(s):
     return ".".join("%x" % ord(c) for c in s) or "-"
 
 
-def run_lines(exe, lines, shards=16, timeout=1800):
+def run_lines(exe, lines, shards=16, timeout=None):
     """Run an executable that maps stdin lines to stdout lines, sharded over processes."""
     if not lines:
         return []
+    if timeout is None:
+        timeout = int(os.environ.get("VERIF_CASE_TIMEOUT", "300"))
     n = max(1, min(shards, len(lines) // 200 + 1))
     chunks = [lines[i::n] for i in range(n)]
     procs = []
@@ -169,7 +176,13 @@ def run_lines(exe, lines, shards=16, timeout=1800):
     import threading
     outs = [None] * n
     def work(i):
-        o, e = procs[i].communicate("\n".join(chunks[i]) + "\n", timeout=timeout)
+        try:
+            o, e = procs[i].communicate("\n".join(chunks[i]) + "\n", timeout=timeout)
+        except subprocess.TimeoutExpired:
+            # a hang: keep what was printed, the first missing line is reported as HANG
+            procs[i].kill()
+            o, e = procs[i].communicate()
+            o = (o or "") + "HANG\n"
         outs[i] = o.split("\n")
         if outs[i] and outs[i][-1] == "": outs[i].pop()
     ths = [threading.Thread(target=work, args=(i,)) for i in range(n)]
@@ -192,10 +205,10 @@ def normalise_impl(line):
     return CERR_PAYLOAD.sub(r"\1", line)
 
 
-def run_both(cases, harness_exe, driver_exe=None):
+def run_both(cases, harness_exe, driver_exe=None, shards=16):
     """cases: list of case lines. Returns list of (case, impl_line, model_line)."""
     driver_exe = driver_exe or os.path.join(OCAML, "driver")
-    impl = run_lines(harness_exe, cases)
+    impl = run_lines(harness_exe, cases, shards=shards)
     mcases = []
     for c, o in zip(cases, impl):
         m = CLOCK.search(o or "")
